@@ -40,7 +40,7 @@ func ParseDateTime(value string) (DateTime, error) {
 	value = strings.TrimPrefix(value, "@")
 	for _, l := range dateTimeLayouts {
 		if t, err = time.Parse(l, value); err == nil {
-			return DateTime{t, layout(l)}, nil
+			return DateTime{fixedOffset(t), layout(l)}, nil
 		}
 	}
 	return DateTime{}, fmt.Errorf("unable to parse DateTime '%s': %w", value, err)
@@ -193,7 +193,19 @@ func (dt DateTime) Add(input Quantity) (DateTime, error) {
 	if err != nil {
 		return DateTime{}, err
 	}
-	return DateTime{result, dt.l}, nil
+	return DateTime{fixedOffset(result), dt.l}, nil
+}
+
+// fixedOffset pins t to a fixed-offset location. time.Parse adopts time.Local
+// whenever the parsed offset equals the local zone's offset at that instant;
+// calendar arithmetic on such a value (e.g. adding a day across a daylight-saving
+// change) would then depend on the time zone of the process.
+func fixedOffset(t time.Time) time.Time {
+	if t.Location() != time.Local {
+		return t
+	}
+	_, offset := t.Zone()
+	return t.In(time.FixedZone("", offset))
 }
 
 // Sub returns the result of dt - input.(Quantity). Returns an
